@@ -47,11 +47,6 @@ Proof. rewrite !nth_opt_nth_error. apply list_set_nth_neq. Qed.
 Lemma list_set_twice {A} (l : list A) k x y : list_set (list_set l k x) k y = list_set l k y.
 Proof. revert k. induction l as [|z l IH]; intros [|k]; cbn; auto. f_equal. apply IH. Qed.
 
-Definition IdxOnly (m : N) (ms ms' : list model) : Prop :=
-  ms' = ms \/
-  exists x i o, nth_opt ms (N.to_nat m) = Some x /\
-                ms' = list_set ms (N.to_nat m) (mkModel (m_root x) (m_files x) i o).
-
 Lemma IdxOnly_refl m ms : IdxOnly m ms ms.
 Proof. left. reflexivity. Qed.
 Lemma IdxOnly_trans m a b c : IdxOnly m a b -> IdxOnly m b c -> IdxOnly m a c.
@@ -164,9 +159,6 @@ Proof.
 Qed.
 
 (* ------------------------------------------------------------------ make_unique_item_name *)
-Definition FreeName (w : world) (m : N) (path : list N) : Prop :=
-  exists x, nth_opt (w_models w) (N.to_nat m) = Some x /\ assoc_get path (m_idents x) = None.
-
 Lemma unique_loop_spec f m pp orig : forall name counter w r w',
   unique_loop f m pp orig name counter w = Val (r, w') ->
   w' = w /\ exists name' counter', r = OK (name', counter') /\
@@ -253,26 +245,6 @@ Proof.
 Qed.
 
 (* ------------------------------------------------------------------ create_copied_sub_element_inner *)
-(* what a copy into `self` (an element of model m) may touch: nothing allocated before except `self`, no file, and of
-   the models only the two index maps of m *)
-Definition CopyFrame (self : id) (m : N) (w w' : world) : Prop :=
-  w_next w <= w_next w' /\ (forall i, i < w_next w -> i <> self -> w_nodes w' i = w_nodes w i) /\
-  w_files w' = w_files w /\ IdxOnly m (w_models w) (w_models w').
-
-(* the fresh part: the final world w' against the world w1 right after deep_copy.  The copy c got its parent link;
-   if it had to be renamed, the text of its SHORT-NAME (its first sub-element s) is `name`; nothing else differs *)
-Definition CopyRel (w1 w' : world) (self c : id) : Prop :=
-  exists nc1, w_nodes w1 c = Some nc1 /\ w_nodes w' c = Some (set_parent nc1 (PElem self)) /\
-  ((forall i, i <> self -> i <> c -> w_nodes w' i = w_nodes w1 i) \/
-   exists s rest sn name orig,
-     n_content nc1 = CElem s :: rest /\ w_nodes w1 s = Some sn /\ c < s /\
-     w_nodes w' s = Some (set_content sn [CData (DString name)]) /\
-     (exists k, 1 <= k /\ name = suffixed orig k) /\
-     item_name T (set_parent nc1 (PElem self))
-       (mkWorld (upd (w_nodes w1) c (set_parent nc1 (PElem self))) (w_next w1) (w_files w1) (w_models w1))
-     = Val (OK (Some orig), mkWorld (upd (w_nodes w1) c (set_parent nc1 (PElem self))) (w_next w1) (w_files w1) (w_models w1)) /\
-     (forall i, i <> self -> i <> c -> i <> s -> w_nodes w' i = w_nodes w1 i)).
-
 Lemma CopyFrame_of_Ext self m w w' : Ext w w' -> CopyFrame self m w w'.
 Proof.
   intros (Hn & Hk & Hf & Hm). repeat split; auto. rewrite Hm. apply IdxOnly_refl.
@@ -298,7 +270,7 @@ Theorem ccsei_spec self other pos m v w r w' :
   | ER _ => w_nodes w' self = Some ns
   | OK c =>
     w_nodes w' self = Some (set_content ns (insert_at (n_content ns) (N.to_nat pos) (CElem c))) /\
-    exists w1, deep_copy T (fuel_of w) other v w = Val (OK c, w1) /\ CopyRel w1 w' self c
+    exists w1, deep_copy T (fuel_of w) other v w = Val (OK c, w1) /\ CopyRel T w1 w' self c
   end.
 Proof.
   intros Cw H. unfold create_copied_sub_element_inner in H.
@@ -354,10 +326,10 @@ Proof.
   assert (MU : forall w3 (ru : out unit),
     (if ident then (do _ <- make_unique_item_name T c m path; wret tt)%W else wret tt) w2 = Val (ru, w3) ->
     Closed w3 /\ CopyFrame self m w w3 /\ w_nodes w3 self = Some ns /\ w_next w3 = w_next w1 /\
-    CopyRel w1 w3 self c).
+    CopyRel T w1 w3 self c).
   { intros w3 ru Hmu.
     assert (Base : Closed w2 /\ CopyFrame self m w w2 /\ w_nodes w2 self = Some ns /\ w_next w2 = w_next w1 /\
-                   CopyRel w1 w2 self c).
+                   CopyRel T w1 w2 self c).
     { repeat (split; auto). exists nc1. split; auto. split; [cbn; apply upd_eq|].
       left. intros i _ Hic. cbn. apply upd_neq. exact Hic. }
     destruct ident.
